@@ -37,6 +37,10 @@ def fill_reports(rnd, plan, kind, n):
 
 def scenario(seed, sid, n_steps=30, p_fault=0.35, restart=False, async_p=0.15, two_strategies=False, unknown_bets=False):
     rnd = random.Random(seed)
+    # a separate stream decides about line markets (one selection on several handicaps), so that the scenarios of
+    # the other seeds stay what they were
+    rnd_hc = random.Random(seed * 7919 + 13)
+    lines = rnd_hc.random() < 0.25
     steps = [{"op": "book", "mid": "1.1"}]
     names = ["A", "B"] if two_strategies else ["A"]
     orders = []   # (label, strat)
@@ -51,6 +55,8 @@ def scenario(seed, sid, n_steps=30, p_fault=0.35, restart=False, async_p=0.15, t
                 n += 1
                 lab = "%so%d" % (strat.lower(), n)
                 a = {"op": "place", "o": lab, "sel": rnd.choice([11, 12]), "side": rnd.choice(["BACK", "LAY"]), "price": rnd.choice([2.0, 2.2, 3.0]), "size": rnd.choice([2.0, 5.0, 3.0])}
+                if lines and rnd_hc.random() < 0.6:
+                    a["hc"] = rnd_hc.choice([-0.5, 1.5])
                 z = rnd.random()
                 if z < 0.08:        # starting-price orders: size = liability
                     a["type"] = "LIMIT_ON_CLOSE"
@@ -127,6 +133,9 @@ def scenario(seed, sid, n_steps=30, p_fault=0.35, restart=False, async_p=0.15, t
         # bets of another program / of a strategy that is not configured, some on a market this instance never saw
         steps.insert(rnd.randrange(1, len(steps)), {"op": "foreign", "mid": rnd.choice(["1.1", "1.3"]), "sel": rnd.choice([11, 12])})
         steps += [{"op": "snap"}, {"op": "proc", "i": -1}]
+    if lines and restart and rnd_hc.random() < 0.5:
+        # a bet of an earlier incarnation of strategy A on a line of the market
+        steps += [{"op": "foreign", "mid": "1.1", "sel": 11, "hc": rnd_hc.choice([-0.5, 1.5]), "known": True}, {"op": "snap"}, {"op": "proc", "i": -1}]
     if restart:
         r = {"op": "restart"}
         if two_strategies and rnd.random() < 0.5:
